@@ -577,7 +577,13 @@ for kind in ('CCD', 'CMOS', 'MKID', 'APD'):
         d = mk(kind)
         d.pixel.array = np.full((2, 3), 7.0); d.photon.array = np.full((2, 3), 1.0); d.signal.array = np.full((2, 3), 2.0); d.image.array = np.full((2, 3), 3, dtype=np.uint16)
         d.charge.add_charge_array(np.full((2, 3), 4.0))
+        import xarray as xr
+        d.scene.add_source(xr.Dataset({'x': ('ref', [1.0]), 'y': ('ref', [2.0]), 'weight': ('ref', [3.0]), 'flux': (('ref', 'wavelength'), [[4.0, 5.0]])}, coords={'ref': [0], 'wavelength': [500.0, 600.0]}))
+        old_scene = d.scene
         d.empty(reset)
+        if d.scene is old_scene or 'list' in d.scene.data or len(d.scene.data.children) != 0:
+            VIOLATED, DETAIL = True, f'{kind}.empty(reset={reset}): the scene still holds the source added before (children {list(d.scene.data.children)})'
+            break
         pix = np.asarray(d.pixel.array)
         ok = (np.array_equal(pix, np.zeros((2, 3))) if reset else np.array_equal(pix, np.full((2, 3), 7.0))) and d.photon._array is None and d.signal._array is None and d.image._array is None \
             and float(np.abs(d.charge.array).max()) == 0.0
